@@ -281,15 +281,19 @@ _add(PropertySpec(
 
 _add(PropertySpec(
     'C05', 'other',
-    functions=['ampycloud.data.AbstractChunk._cleanup_pdf'],
-    lemmas=['cnt_union', 'prop.C05.layer_ids_injective'],
+    functions=['ampycloud.data.AbstractChunk._cleanup_pdf', 'ampycloud.data.CeiloChunk.find_slices', 'ampycloud.data.CeiloChunk._setup_sligrolay_pdf'],
+    lemmas=['cnt_union', 'cnt_ext', 'cnt_mono', 'prop.C05.layer_ids_injective'],
     extras=[_fs.c05], bounded=_bounded('c05'),
     explanation=('PROVED (F): after construction no method writes any column of the private hit table other than slice_id / group_id / '
                  'layer_id (each stage only its own), nor replaces the table: no hit is created, lost or altered by the stages.  PROVED (P): '
                  'at construction exactly the hits above MSA+buffer are changed / removed (_cleanup_pdf, see C07).  PROVED (lemma): with the '
                  'id scheme offset+10*row+component (offset above every group id, component in 0..2) equal layer ids imply the same group '
-                 'and component -- each layer lies inside exactly one group.  BOUNDED (B): that every valid hit gets an id >= 0 and every '
-                 'non-detection -1 at each stage, that the tables list exactly the ids present, n_<which> and the k-components-k-layers '
+                 'and component -- each layer lies inside exactly one group.  PROVED (P, row dialect): find_slices (real AST) gives every hit '
+                 'with a valid height a slice id >= 0 and every non-detection -1, writes no other hit column, and hands each cluster label '
+                 'back to the row it was computed from (the assignment mask is the clustered selection, so the lengths agree: no '
+                 'ValueError); the labels themselves come from the assumed clustering contract (one label >= 0 per sample).  '
+                 '_setup_sligrolay_pdf: one table row per set, cluster_id = set id.  BOUNDED (B): the same clause for groups and layers (find_groups / '
+                 'find_layers are not under a full-mode contract), that the tables list exactly the ids present, n_<which> and the k-components-k-layers '
                  'clause depend on scikit-learn labels and pandas fills; checked natively on the scene grammar.'),
     assumptions=[A_FRAME, 'clustering / mixture model return one label per sample, mixture labels in 0..2 (library contracts)',
                  'the id formula in find_layers is the one the lemma is about (obligation pin.layer_id_formula)'],
